@@ -1,16 +1,24 @@
 (* C20  fuse is uniform, order-preserving and lossless.
    Statements only; each is closed by [exact] of a lemma from Proofs/FuseProofs.v.
 
-   The model (Model/Fuse.v) mirrors agg.merge / Schema.Mixin, the fuse()
-   aggregate, the shaper with Cast|Fill|Order (shaperType, newStep, step.build,
-   bestUnionTag, the per-type-id cache of ConstShaper) and the Fuser's
-   buffering with its spill file.  The full statement "every output has the
-   fused type and carries exactly the leaves of its input" is FALSE of the
-   faithful model (C20_fuse_uniform_refuted, C20_fuse_lossless_map_refuted:
-   both witnesses are reproduced on the real code by the oracle); it is proved
-   under the computable guard [input_ok] = "the real shaper computes the fused
-   type for this input type, without primitive casts, and the input type fits
-   the fused type" (C20_fuse_uniform_lossless_guarded). *)
+   The model (Model/Fuse.v) mirrors, as of /repo HEAD, agg.merge / Schema.Mixin,
+   the fuse() aggregate, the shaper with Cast|Fill|Order (shaperType, newStep,
+   step.build, bestUnionTag, the per-type-id cache of ConstShaper) and the
+   Fuser's buffering with its spill file.
+
+   Full strength (all inputs, all memory limits): C20_fuse_count_order,
+   C20_fuse_spill_invariant, C20_fuse_type_is_agg_type.
+
+   "Every output has the fused type and carries exactly the leaves of its
+   input" is still FALSE of the code and of the faithful model; the witnesses
+   are the open findings F-C20-1 (C20_fuse_uniform_refuted: a union member
+   widened by the merge) and F-C20-2 (C20_fuse_lossless_map_refuted: maps);
+   F-C20-3 (error values pass through unshaped) is outside the type algebra of
+   the model.  The statement is proved under the computable guard [input_ok] =
+   "the real shaper computes the fused type for this input type, without
+   primitive casts, and the input type fits the fused type"
+   (C20_fuse_uniform_lossless_guarded); the correspondence run checks that the
+   guard holds exactly for the inputs outside the finding classes. *)
 From ZV Require Import Base.Prelude Model.Fuse Proofs.FuseProofs.
 
 Section C20.
